@@ -28,7 +28,10 @@ def loop(pkg, test, qs=4, ts=16, replay=None, timeout=900, ttimeout=7200, q=1, t
 CHECKS = {
     "C01": dict(tests=[rapid("e2e", "TestC01", 960, 32000, qs=16, ts=16, timeout=1200, ttimeout=14000)]),
     "C02": dict(tests=[rapid("storeprops", "TestC02", 24000, 2400000, qs=8)]),
-    "C03": dict(tests=[rapid("storeprops", "TestC03Store", 24000, 1600000, qs=8, replay="TestC03StoreReplay")]),
+    "C03": dict(tests=[
+        rapid("storeprops", "TestC03Store", 24000, 1600000, qs=8, replay="TestC03StoreReplay"),
+        rapid("e2e", "TestC03Forks", 640, 32000, qs=8, ts=16, timeout=1200, ttimeout=14000, replay="TestC03ForksReplay"),
+    ]),
     "C04": dict(tests=[
         rapid("e2e", "TestC04", 160, 9600, qs=16, ts=16, timeout=1200, ttimeout=14000, replay="TestC04Replay"),
         dict(pkg="e2e", test="TestC04AllPositions", kind="rapid", replay="TestC04AllPositionsReplay", thorough_only=True,
